@@ -1,37 +1,37 @@
 import Bip39V.Model.Check
 import Bip39V.Model.Reader
 /-! The three size gates, for every Go `int` (modelled as `Int`; `%` truncates toward zero).
-The first `have` in each proof is where the regenerated constants enter (by `rfl`). -/
+The gate conditions are *translated from the source* on every run (`Gen/Gates.lean`); the proofs
+below do not depend on how the condition is written — they split on the sign of `n`, turn the
+truncated remainder into the Euclidean one, and leave linear arithmetic to `omega` — so an
+equivalent rewrite of a gate is re-proved, and a changed bound is not. -/
 namespace Bip39V.Model
 
+/-- the translator understood all three conditions, and none uses `+ - *` (whose 64-bit
+wrap-around is not modelled) -/
+theorem gates_translated :
+    Gen.Gates.entGateTranslated = true ∧ Gen.Gates.wordGateTranslated = true ∧ Gen.Gates.wcGateTranslated = true ∧
+    Gen.Gates.entGateUsesArith = false ∧ Gen.Gates.wordGateUsesArith = false ∧ Gen.Gates.wcGateUsesArith = false := by decide
+
 theorem entGate_iff (n : Int) : entGate n = false ↔ n = 16 ∨ n = 20 ∨ n = 24 ∨ n = 28 ∨ n = 32 := by
-  have hdef : entGate n = (decide (n < 16) || decide (n > 32) || (n.tmod 4 != 0)) := rfl
-  rw [hdef]
-  simp only [Bool.or_eq_false_iff, decide_eq_false_iff_not, bne_eq_false_iff_eq, Int.not_lt, gt_iff_lt]
-  constructor
-  · rintro ⟨⟨h1, h2⟩, h3⟩
-    have : n.tmod 4 = n % 4 := Int.tmod_eq_emod_of_nonneg (by omega)
-    omega
-  · rintro (h|h|h|h|h) <;> subst h <;> decide
+  unfold entGate Gen.Gates.entGate
+  rcases Int.le_total 0 n with hn | hn
+  · (try simp only [Int.tmod_eq_emod_of_nonneg hn]); simp <;> omega
+  · obtain ⟨m, rfl, hm⟩ : ∃ m : Int, n = -m ∧ 0 ≤ m := ⟨-n, by omega, by omega⟩
+    (try simp only [Int.neg_tmod, Int.tmod_eq_emod_of_nonneg hm]); simp <;> omega
 
 theorem wordGate_iff (n : Int) : wordGate n = false ↔ n = 12 ∨ n = 15 ∨ n = 18 ∨ n = 21 ∨ n = 24 := by
-  have hdef : wordGate n = (decide (n < 12) || decide (n > 24) || (n.tmod 3 != 0)) := rfl
-  rw [hdef]
-  simp only [Bool.or_eq_false_iff, decide_eq_false_iff_not, bne_eq_false_iff_eq, Int.not_lt, gt_iff_lt]
-  constructor
-  · rintro ⟨⟨h1, h2⟩, h3⟩
-    have : n.tmod 3 = n % 3 := Int.tmod_eq_emod_of_nonneg (by omega)
-    omega
-  · rintro (h|h|h|h|h) <;> subst h <;> decide
+  unfold wordGate Gen.Gates.wordGate
+  rcases Int.le_total 0 n with hn | hn
+  · (try simp only [Int.tmod_eq_emod_of_nonneg hn]); simp <;> omega
+  · obtain ⟨m, rfl, hm⟩ : ∃ m : Int, n = -m ∧ 0 ≤ m := ⟨-n, by omega, by omega⟩
+    (try simp only [Int.neg_tmod, Int.tmod_eq_emod_of_nonneg hm]); simp <;> omega
 
 theorem wcGate_iff (n : Int) : wcGate n = false ↔ n = 12 ∨ n = 15 ∨ n = 18 ∨ n = 21 ∨ n = 24 := by
-  have hdef : wcGate n = ((n.tmod 3 != 0) || decide (n < 12) || decide (n > 24)) := rfl
-  rw [hdef]
-  simp only [Bool.or_eq_false_iff, decide_eq_false_iff_not, bne_eq_false_iff_eq, Int.not_lt, gt_iff_lt]
-  constructor
-  · rintro ⟨⟨h3, h1⟩, h2⟩
-    have : n.tmod 3 = n % 3 := Int.tmod_eq_emod_of_nonneg (by omega)
-    omega
-  · rintro (h|h|h|h|h) <;> subst h <;> decide
+  unfold wcGate Gen.Gates.wcGate
+  rcases Int.le_total 0 n with hn | hn
+  · (try simp only [Int.tmod_eq_emod_of_nonneg hn]); simp <;> omega
+  · obtain ⟨m, rfl, hm⟩ : ∃ m : Int, n = -m ∧ 0 ≤ m := ⟨-n, by omega, by omega⟩
+    (try simp only [Int.neg_tmod, Int.tmod_eq_emod_of_nonneg hm]); simp <;> omega
 
 end Bip39V.Model
